@@ -47,7 +47,7 @@ def E1(inp, N, n=2, ro=False):
     """vote-once: a request_vote is granted at most once per term, only to an up-to-date candidate,
     with the node's term equal to the request's; read-only nodes never answer."""
     o, tr, now = _mk(inp, N, ro)
-    p = so.sym_state(inp, o, now, n, term_hi=T_HI)
+    p = so.sym_state(inp, o, now, n, term_hi=T_HI, connected=())        # the vote handler never reads connectivity
     sender = p.others[inp.choice('sender', len(p.others))]
     mterm = inp.int('mterm', 0, T_HI + 1)
     lli = inp.int('lli', 0, 8)
